@@ -371,7 +371,24 @@ func (c *Ctx) lexModel() (*lexModel, string) {
 		if st, ok := u.(*ssa.Store); ok && st.Val == ssa.Value(param) {
 			if fa, isFA := st.Addr.(*ssa.FieldAddr); isFA {
 				if al, isAl := fa.X.(*ssa.Alloc); isAl && al.Parent() == fn {
-					m.state, m.usageField = al, fa.Field
+					// only a struct whose copy of the input is what the scanner reads bytes from
+					indexed := false
+					for _, u2 := range *al.Referrers() {
+						if fa2, ok2 := u2.(*ssa.FieldAddr); ok2 && fa2.Field == fa.Field {
+							for _, u3 := range *fa2.Referrers() {
+								if ld, isLd := u3.(*ssa.UnOp); isLd && ld.Op == token.MUL {
+									for _, u4 := range *ld.Referrers() {
+										if ix, isIx := u4.(*ssa.Index); isIx && ix.X == ssa.Value(ld) {
+											indexed = true
+										}
+									}
+								}
+							}
+						}
+					}
+					if indexed {
+						m.state, m.usageField = al, fa.Field
+					}
 				}
 			}
 		}
@@ -927,7 +944,7 @@ func (m *lexModel) boundedIndex(v ssa.Value, unguarded map[*ssa.BasicBlock]bool,
 	if seen[v] {
 		return true // inductive hypothesis round a phi cycle
 	}
-	if m.isPosLoad(v) {
+	if m.isPosLoad(v) || m.eof[v] {
 		return true
 	}
 	switch x := v.(type) {
